@@ -447,6 +447,10 @@ class ContractMixin:
                 s = self.eval(node.args[0], st)
                 if s.kind == "dict":
                     return s
+                if s.kind == "val":
+                    sp = s.spec.arg if (s.spec is not None and s.spec.kind == "opt") else s.spec
+                    if sp is not None and sp.kind == "dict":
+                        return unbox(sp, s.t, st)
             raise Unsupported("dict(...) constructor form")
         if clsname == "str":
             x = self.eval(node.args[0], st)
